@@ -99,6 +99,26 @@ def _len_facts(facts, base_txts: set[str]) -> tuple[int, bool]:
                         lo = max(lo, k + add)
                     except ValueError:
                         pass
+    # lengths excluded one by one from below: len >= 1 and len != 1 is len >= 2 (`if not xs: ...; if len(xs) == 1: ...; xs[-2]`)
+    excluded: set[int] = set()
+    for t, p in facts:
+        for b in base_txts:
+            for op, pol in (("==", False), ("!=", True)):
+                pref = f"len({b}) {op} "
+                if t.startswith(pref) and p == pol:
+                    try:
+                        excluded.add(int(t[len(pref):]))
+                    except ValueError:
+                        pass
+            for op, pol, add in (("<", False, 0), ("<=", False, 1)):  # not (len < k)  =>  len >= k
+                pref = f"len({b}) {op} "
+                if t.startswith(pref) and p == pol:
+                    try:
+                        lo = max(lo, int(t[len(pref):]) + add)
+                    except ValueError:
+                        pass
+    while lo in excluded:
+        lo += 1
     return lo, False
 
 
